@@ -348,4 +348,32 @@ def wfMeminfo (ls : List KV) : Bool :=
   ls.all (fun e => wfKey e.key) && (ls.map (·.key)).Nodup
     && (kvGet ls bMemTotal).isSome && (kvGet ls bMemFree).isSome
 
+/-! ### /proc/pid/smaps_rollup as a record of its own (`show_smaps_rollup`): the pseudo header and
+    ANY list of `Key:  value kB` lines — the real kernel prints keys the per-mapping listing does
+    not have (`Pss_Anon`, `Pss_File`, `Pss_Shmem`) and keeps sub-kB precision while summing, so its
+    `Pss` line is in general NOT the sum of the per-mapping `Pss` lines. -/
+
+def renderRollupRec (lo hi : Nat) (kvs : List KV) : Bytes :=
+  unlines (rollupHeader lo hi :: kvs.map kvLine)
+
+def bPrivate_ : Bytes := [80, 114, 105, 118, 97, 116, 101, 95]     -- "Private_"
+
+/-- what the API promises when the roll-up is the source: uss = the roll-up's `Private_*` lines
+    added up, pss / swap = its `Pss` / `Swap` line (kB → bytes; 0 for a line that is absent) -/
+def specFullRollup (kvs : List KV) : Full :=
+  { uss := 1024 * ((kvs.filter fun e => startsWith bPrivate_ e.key).map (·.val)).sum
+    pss := 1024 * (kvGet kvs bPss).getD 0
+    swap := 1024 * (kvGet kvs bSwap).getD 0 }
+
+def wfRollupRec (kvs : List KV) : Bool := kvs.all (fun e => wfKey e.key) && (kvs.map (·.key)).Nodup
+
+/-- the kernel accumulates PSS in bytes × 2¹² (`PSS_SHIFT`) and prints `>> (10 + PSS_SHIFT)` -/
+def pssUnit : Nat := 4194304
+
+/-- `Pss:` of the per-mapping listing, summed (each mapping's line is truncated to kB first) -/
+def pssListed (fine : List Nat) : Nat := (fine.map (· / pssUnit)).sum
+
+/-- `Pss:` of the roll-up (the sum is truncated once) -/
+def pssRolled (fine : List Nat) : Nat := fine.sum / pssUnit
+
 end Psutil.C13.Spec
